@@ -292,7 +292,6 @@ func (c *scriptedClient) next(nRanges int) (*spacesyncproto.HeadSyncResponse, er
 	if err := resp.UnmarshalVT(e[1:]); err != nil {
 		return nil, err
 	}
-	c.in += len(e)
 	if e[0]&1 == 1 && len(resp.Results) > 0 {
 		fit := make([]*spacesyncproto.HeadSyncResult, nRanges)
 		for i := range fit {
@@ -300,6 +299,10 @@ func (c *scriptedClient) next(nRanges int) (*spacesyncproto.HeadSyncResponse, er
 		}
 		resp.Results = fit
 	}
+	// what the remote puts on the wire in this round: in "fit" mode one scripted result is repeated
+	// for every range the local side asked about (16, then 256, ... per round), so the bytes received
+	// are a multiple of the script entry; the allocation budget is about bytes actually received
+	c.in += resp.SizeVT()
 	return resp, nil
 }
 
